@@ -21,4 +21,5 @@ Inductive tok :=
 | TTrack (arg : Z) | TChannel (arg : Z) | TVoice (args : list Z)
 | TKeyFlag (flags : list Z) | TKeyShift (arg : Z) | TTrackKey (arg : Z)
 | TTrackSync | TPlayFromHere | TComment
-| TTime (args : list Z) | TPlayFrom (args : list Z) | TTimeSignature (args : list Z) | TMeasureShift (arg : Z) | TTempo (arg : Z).
+| TTime (args : list Z) | TPlayFrom (args : list Z) | TTimeSignature (args : list Z) | TMeasureShift (arg : Z) | TTempo (arg : Z)
+| TVAdd (arg : Z) | TQAdd (arg : Z).
